@@ -598,9 +598,13 @@ func randParam(r *vh.RNG, desc []tcoin, mode int) param {
 }
 
 // ---------- coin-set histories ----------
+// A history interleaves mutations (push, pop, shift) with reads: "coins" (Coins() compared with
+// the reference contents), "tx" (NewMsgTxWithInputCoins compared with the reference contents).
+// Num(), TotalValue(), TotalValueAge() are compared with the sums over the reference contents
+// after every step.
 type hop struct {
-	Op   string // push pop shift
-	Coin int    // index into the pool of the history (push)
+	Op   string // push pop shift coins tx
+	Coin int    // index into the coins of the history (push)
 }
 
 func history(pl *pool, init []tcoin, extra []tcoin, ops []hop, corr bool) {
@@ -622,19 +626,11 @@ func history(pl *pool, init []tcoin, extra []tcoin, ops []hop, corr bool) {
 	bad := func(clause, what string, step int) {
 		rep.Violate("C19:coinset:"+clause, what, map[string]interface{}{"family": "history", "init_value_confs": init, "pushable_value_confs": extra, "ops": ops, "failing_step": step})
 	}
-	monitor := func(step int) {
+	sums := func(step int) {
 		var tv, tva int64
 		for _, id := range ref {
 			tv += all[id].V
 			tva += all[id].V * all[id].C // int64 wrap, like the sums over contents in Go
-		}
-		got := set.Coins()
-		same := len(got) == len(ref)
-		for i := 0; same && i < len(ref); i++ {
-			same = idOf(got[i]) == ref[i]
-		}
-		if !same {
-			bad("contents", "Coins() differs from the pushed-minus-removed sequence", step)
 		}
 		if set.Num() != len(ref) {
 			bad("num", fmt.Sprintf("Num() = %d, contents %d", set.Num(), len(ref)), step)
@@ -646,12 +642,62 @@ func history(pl *pool, init []tcoin, extra []tcoin, ops []hop, corr bool) {
 			bad("totalvalueage", fmt.Sprintf("TotalValueAge() = %d, sum over contents %d", set.TotalValueAge(), tva), step)
 		}
 	}
-	monitor(-1)
+	contents := func(step int) {
+		got := set.Coins()
+		same := len(got) == len(ref)
+		for i := 0; same && i < len(ref); i++ {
+			same = idOf(got[i]) == ref[i]
+		}
+		if !same {
+			ids := []int{}
+			for _, c := range got {
+				ids = append(ids, idOf(c))
+			}
+			bad("contents", fmt.Sprintf("Coins() lists ids %v, the pushed-minus-removed sequence is %v (Num() = %d)", ids, ref, set.Num()), step)
+		}
+		// the caller owns the returned slice: scribbling on it must not change the set
+		for i := range got {
+			got[i] = nil
+		}
+	}
+	tx := func(step int) {
+		version := int32(1 + step%3)
+		t := coinset.NewMsgTxWithInputCoins(version, set)
+		why := ""
+		if len(t.TxIn) != len(ref) {
+			why = fmt.Sprintf("%d inputs for %d coins", len(t.TxIn), len(ref))
+		}
+		for i, in := range t.TxIn {
+			if i < len(ref) && (in.PreviousOutPoint.Hash != *cs[ref[i]].Hash() || in.PreviousOutPoint.Index != cs[ref[i]].Index()) {
+				why = fmt.Sprintf("input %d does not spend the outpoint of coin %d of the set", i, i)
+			}
+			if in.SignatureScript != nil || in.Sequence != wire.MaxTxInSequenceNum {
+				why = "input with a signature script or a non-final sequence"
+			}
+		}
+		if len(t.TxOut) != 0 || t.LockTime != 0 || t.Version != version {
+			why = "unexpected outputs, lock time or version"
+		}
+		if why != "" {
+			rep.Violate("C19:tx:spends_exactly", "NewMsgTxWithInputCoins: "+why, map[string]interface{}{"family": "history", "init_value_confs": init, "pushable_value_confs": extra, "ops": ops, "failing_step": step, "set_contents_ids": append([]int(nil), ref...)})
+		}
+		rep.Histogram["tx"]++
+	}
+	sums(-1)
 	obs := make([]string, 0, len(ops))
 	coqOps := make([]string, 0, len(ops))
+	nmut := 0
 	for i, o := range ops {
 		ret := "None"
 		switch o.Op {
+		case "coins":
+			contents(i)
+			sums(i)
+			continue
+		case "tx":
+			tx(i)
+			sums(i)
+			continue
 		case "push":
 			set.PushCoin(cs[o.Coin])
 			ref = append(ref, o.Coin)
@@ -689,68 +735,44 @@ func history(pl *pool, init []tcoin, extra []tcoin, ops []hop, corr bool) {
 				ret = fmt.Sprintf("(Some %d)", idOf(c))
 			}
 		}
-		monitor(i)
+		nmut++
+		sums(i)
 		obs = append(obs, fmt.Sprintf("Ob %s %d %s %s", ret, set.Num(), vh.CoqZ(int64(set.TotalValue())), vh.CoqZ(set.TotalValueAge())))
 	}
-	rep.Count("history", fmt.Sprint(init, extra, ops), len(ops) > 0)
-	// the transaction built from the set spends exactly those outpoints, in order
-	txCheck(pl, set, all, idOf, corr, fmt.Sprint(init, extra, ops))
+	// final reads: contents, then the transaction built from the set
+	contents(len(ops))
+	tx(len(ops))
+	sums(len(ops))
+	rep.Count("history", fmt.Sprint(init, extra, ops), nmut > 0)
 	if corr {
 		final := make([]int, 0)
+		itm := make([]string, 0)
 		for _, c := range set.Coins() {
-			final = append(final, idOf(c))
+			id := idOf(c)
+			final = append(final, id)
+			if id >= 0 {
+				itm = append(itm, fmt.Sprintf("C %d %s %s", id, vh.CoqZ(all[id].V), vh.CoqZ(all[id].C)))
+			}
 		}
 		cases.Add(fmt.Sprintf("Hist %s %s %s %s", coqCoins(init), vh.CoqList(coqOps), vh.CoqList(obs), coqIDs(final)),
 			map[string]interface{}{"op": "history", "init": init, "pushable": extra, "ops": ops})
-	}
-}
-
-func txCheck(pl *pool, set *coinset.CoinSet, all []tcoin, idOf func(coinset.Coin) int, corr bool, key string) {
-	version := int32(1 + len(all)%3)
-	tx := coinset.NewMsgTxWithInputCoins(version, set)
-	coins := set.Coins()
-	rep.Count("tx", "tx"+key, len(coins) > 0)
-	bad := func(what string) {
-		ids := []int{}
-		for _, c := range coins {
-			ids = append(ids, idOf(c))
-		}
-		rep.Violate("C19:tx:spends_exactly", what, map[string]interface{}{"family": "tx", "coin_ids": ids, "coins_value_confs": all})
-	}
-	plain := true
-	outs := make([]int, len(tx.TxIn))
-	if len(tx.TxIn) != len(coins) {
-		bad(fmt.Sprintf("%d inputs for %d coins", len(tx.TxIn), len(coins)))
-	}
-	for i, in := range tx.TxIn {
-		outs[i] = -1
-		for j, c := range pl.coins(all) {
-			if in.PreviousOutPoint.Hash == *c.Hash() && in.PreviousOutPoint.Index == c.Index() {
-				outs[i] = j
+		// the transaction of the final set, as the implementation built it
+		t := coinset.NewMsgTxWithInputCoins(2, set)
+		outs := make([]int, len(t.TxIn))
+		plain := true
+		for i, in := range t.TxIn {
+			outs[i] = -1
+			for j, c := range cs {
+				if in.PreviousOutPoint.Hash == *c.Hash() && in.PreviousOutPoint.Index == c.Index() {
+					outs[i] = j
+				}
+			}
+			if in.SignatureScript != nil || in.Sequence != wire.MaxTxInSequenceNum {
+				plain = false
 			}
 		}
-		if i < len(coins) && (in.PreviousOutPoint.Hash != *coins[i].Hash() || in.PreviousOutPoint.Index != coins[i].Index()) {
-			bad(fmt.Sprintf("input %d does not spend the outpoint of coin %d of the set", i, i))
-		}
-		if in.SignatureScript != nil || in.Sequence != wire.MaxTxInSequenceNum {
-			plain = false
-			bad("input with a signature script or a non-final sequence")
-		}
-	}
-	if len(tx.TxOut) != 0 || tx.LockTime != 0 || tx.Version != version {
-		bad("unexpected outputs, lock time or version")
-	}
-	if corr {
-		ids := make([]tcoin, 0, len(coins))
-		// the model rebuilds the set from its contents: ids are those of `all`
-		itm := make([]string, 0, len(coins))
-		for _, c := range coins {
-			id := idOf(c)
-			ids = append(ids, all[id])
-			itm = append(itm, fmt.Sprintf("C %d %s %s", id, vh.CoqZ(all[id].V), vh.CoqZ(all[id].C)))
-		}
-		cases.Add(fmt.Sprintf("Tx %d %s %s %s %d%%nat %d", tx.Version, vh.CoqList(itm), coqIDs(outs), vh.CoqBool(plain), len(tx.TxOut), tx.LockTime),
-			map[string]interface{}{"op": "NewMsgTxWithInputCoins", "coins": ids, "impl_outpoints": outs})
+		cases.Add(fmt.Sprintf("Tx %d %s %s %s %d%%nat %d", t.Version, vh.CoqList(itm), coqIDs(outs), vh.CoqBool(plain), len(t.TxOut), t.LockTime),
+			map[string]interface{}{"op": "NewMsgTxWithInputCoins", "contents_ids": final, "impl_outpoints": outs})
 	}
 }
 
@@ -761,21 +783,29 @@ func randHistory(r *vh.RNG, pl *pool, mode int, corr bool) {
 	}
 	init := randDesc(r, ni, mode)
 	extra := randDesc(r, 1+r.Intn(5), mode)
-	nops := r.Intn(14)
-	ops := make([]hop, nops)
-	bias := r.Intn(3) // 0: mostly push, 1: balanced, 2: mostly remove (hits the empty set)
-	for i := range ops {
+	nmut := r.Intn(14)
+	var ops []hop
+	bias := r.Intn(3)  // 0: mostly push, 1: balanced, 2: mostly remove (hits the empty set)
+	reads := r.Intn(4) // 0: no reads between mutations ... 3: a read after almost every mutation
+	if r.Intn(2) == 0 {
+		ops = append(ops, hop{Op: vh.Pick(r, []string{"coins", "tx"})}) // read the initial set
+	}
+	for i := 0; i < nmut; i++ {
 		k := r.Intn(6)
 		switch {
-		case k < 4-bias*1-bias/2:
-			ops[i] = hop{"push", len(init) + r.Intn(len(extra))}
+		case k < 4-bias-bias/2:
+			o := hop{"push", len(init) + r.Intn(len(extra))}
 			if ni > 0 && r.Intn(6) == 0 {
-				ops[i].Coin = r.Intn(ni) // push a coin that is (or was) already in the set
+				o.Coin = r.Intn(ni) // push a coin that is (or was) already in the set
 			}
+			ops = append(ops, o)
 		case k%2 == 0:
-			ops[i] = hop{Op: "pop"}
+			ops = append(ops, hop{Op: "pop"})
 		default:
-			ops[i] = hop{Op: "shift"}
+			ops = append(ops, hop{Op: "shift"})
+		}
+		if r.Intn(3) < reads {
+			ops = append(ops, hop{Op: vh.Pick(r, []string{"coins", "coins", "tx"})})
 		}
 	}
 	history(pl, init, extra, ops, corr)
@@ -851,11 +881,11 @@ func main() {
 	}
 	var scopes []scope
 	if cfg.Search {
-		scopes = []scope{{full, 0, 0}, {full, 1, 0}, {full, 2, 0}, {full, 3, 0}, {full, 4, 14}, {red, 5, 12}, {six, 6, 40}, {five, 7, 30}}
+		scopes = []scope{{full, 0, 0}, {full, 1, 0}, {full, 2, 0}, {full, 3, 120}, {full, 4, 6}, {red, 5, 5}, {six, 6, 20}, {five, 7, 12}}
 	} else if cfg.Thorough() {
-		scopes = []scope{{full, 0, 0}, {full, 1, 0}, {full, 2, 0}, {full, 3, 0}, {full, 4, 12}, {red, 5, 10}, {six, 6, 35}, {five, 7, 25}}
+		scopes = []scope{{full, 0, 0}, {full, 1, 0}, {full, 2, 0}, {full, 3, 120}, {full, 4, 6}, {red, 5, 5}, {six, 6, 20}, {five, 7, 12}}
 	} else {
-		scopes = []scope{{full, 0, 0}, {full, 1, 0}, {full, 2, 0}, {full, 3, 40}, {red, 4, 30}, {tiny, 5, 4}}
+		scopes = []scope{{full, 0, 0}, {full, 1, 0}, {full, 2, 0}, {full, 3, 25}, {red, 4, 15}, {tiny, 5, 2}}
 	}
 	hist := map[string]int{}
 	for _, sc := range scopes {
@@ -884,7 +914,7 @@ func main() {
 
 	// 3. random lists: monitors, and correspondence for at most 12 coins
 	r := rng.Fork("random")
-	nr := cfg.Scale(900, 6000)
+	nr := cfg.Scale(900, 4000)
 	if cfg.Search {
 		nr = 30000
 	}
@@ -929,6 +959,13 @@ func main() {
 	}
 	history(pl, nil, []tcoin{{1, 1}}, []hop{{Op: "pop"}, {Op: "shift"}, {"push", 0}, {Op: "shift"}, {Op: "shift"}, {Op: "pop"}}, true)
 	history(pl, []tcoin{{3, 2}, {5, 0}}, []tcoin{{7, 7}}, nil, true)
+	// read / remove / read patterns: push a,b,c; read; shift; read; pop; read; push d; read (and the mirror image)
+	abc := []tcoin{{3, 2}, {5, 1}, {7, 3}, {11, 4}}
+	for _, rd := range []string{"coins", "tx"} {
+		history(pl, nil, abc, []hop{{"push", 0}, {"push", 1}, {"push", 2}, {Op: rd}, {Op: "shift"}, {Op: rd}, {Op: "pop"}, {Op: rd}, {"push", 3}, {Op: rd}}, true)
+		history(pl, nil, abc, []hop{{"push", 0}, {"push", 1}, {"push", 2}, {Op: rd}, {Op: "pop"}, {Op: rd}, {Op: "shift"}, {Op: rd}, {"push", 3}, {Op: rd}, {Op: "shift"}, {Op: "shift"}, {Op: rd}}, true)
+		history(pl, abc[:3], abc[3:], []hop{{Op: rd}, {Op: "shift"}, {Op: "shift"}, {Op: rd}, {Op: "shift"}, {Op: rd}, {Op: "shift"}, {Op: rd}}, true)
+	}
 	for i := 0; i < nh; i++ {
 		randHistory(r, pl, []int{0, 1, 2, 4}[i%4], !cfg.Search && i%3 == 0)
 	}
